@@ -294,6 +294,9 @@ class Run:
         cfg = self.cfg; R = self; nj = cfg["nj"]
         maxb = (64 if cfg.get("autobatch") else max(cfg["bsizes"])) if cfg["bs"] == "auto" else cfg["bs"]
         pre = pre_tasks(cfg["pre"], nj)
+        if cfg.get("warn_error"):
+            # the user runs with warnings turned into errors (python -W error, pytest filterwarnings=error)
+            warnings.simplefilter("error")
         for callno, cs in enumerate(cfg["calls"]):
             self.callno = callno; self.cur = dict(n=cs["n"], fail=set(cs.get("fail", ())), iterfail=cs.get("iterfail"),
                                                   hang=set(cs.get("hang", ())))
@@ -379,11 +382,19 @@ class Run:
                                 R.bev("ProbeEnd", ok=True)
                             except RuntimeError:
                                 R.ev(ev="Rejected"); R.bev("ProbeEnd", ok=False)
-                            gen.close()
+                            try:
+                                gen.close()
+                            except Warning as w:
+                                R.notes.append("close() raised the warning: " + str(w)[:80])
                             kind = "closed"; break
                         if act == 1:
                             R.ev(ev="Close"); R.dtrace.append(dict(ev="Close"))
-                            gen.close(); kind = "closed"; break
+                            try:
+                                gen.close()
+                            except Warning as w:
+                                # warnings are errors in this run (python -W error): the "exit early" warning surfaces from close()
+                                R.notes.append("close() raised the warning: " + str(w)[:80])
+                            kind = "closed"; break
                         if act == 2:
                             # probe: call the object again while the generator is alive (empty input)
                             try:
